@@ -46,13 +46,16 @@ Fixpoint replay_from (env : tenv) (st : tstate) (idx : N)
       else idx
   end.
 
-(* env4 = (is_packed, is_union, is_rust_union, known_layout); force_explicit_padding is
-   false, the pointer size 8, and the padding rule the current one *)
-Definition replay_mismatch (env4 : bool * bool * bool * option (N * N))
+(* env4 = (is_packed, is_union, is_rust_union, known_layout); `force` is the
+   force_explicit_padding option the run was made with (logged by add_tail_padding), the
+   pointer size 8, and the padding rule the current one *)
+Definition replay_mismatch_f (force : bool) (env4 : bool * bool * bool * option (N * N))
     (steps : list (call * option sview * option (N * N))) : N :=
   let '(packed, union, rust_union, known) := env4 in
   replay_from
     {| is_packed := packed; is_union := union; is_rust_union := rust_union;
-       known_layout := known; force_explicit_padding := false; ptr_size := 8;
+       known_layout := known; force_explicit_padding := force; ptr_size := 8;
        legacy_padding_align := false |}
     init_state 1 steps.
+
+Definition replay_mismatch := replay_mismatch_f false.
